@@ -117,6 +117,7 @@ void judge_image(World &W, const string &dir, const Mutation &m) {
     ldb_readopt_t ro = *ldb_iteropt_default; ro.verify_checksums = 1;
     ldb_iter_t *it = ldb_iterator(db, &ro);
     std::vector<std::pair<string, string>> live(W.model.begin(), W.model.end());
+    { KeyCmp kc; kc.type = W.p.cfg.cmp; std::sort(live.begin(), live.end(), [&](const std::pair<string, string> &a, const std::pair<string, string> &b) { return kc.cmp(a.first, b.first) < 0; }); } // iterator order is the database comparator's
     for (size_t i = 0; i < live.size() && !failed(); i++) {
       ldb_slice_t t = S(live[i].first);
       ldb_iter_seek(it, &t);
@@ -177,7 +178,8 @@ Plan gen_corrupt(uint64_t seed, const string &prop) {
   Plan p;
   p.mode = "corrupt"; p.seed = seed;
   p.cfg = random_config(r);
-  p.cfg.cmp = 0; p.cfg.wbs = 65536; p.cfg.paranoid = 1;
+  if (p.cfg.cmp == 3) p.cfg.cmp = 0;
+  p.cfg.wbs = 65536; p.cfg.paranoid = 1;
   p.cfg.block = r.chance(0.7) ? 1024 : 4096;
   if (r.chance(0.7)) p.cfg.filter = 1;
   p.cfg.cache = r.chance(0.5) ? 1 : p.cfg.cache;
@@ -277,6 +279,8 @@ void exec_corrupt(const Plan &p, RunOut *out) {
           ref::TableDecode td = ref::table_decode(data);
           if (!td.ok) { violation("C14", "table_decode", "independent reader cannot decode undamaged table %s: %s", name.c_str(), td.error.c_str()); break; }
           size_t n = data.size();
+          // files shorter than a footer, and the empty file
+          for (size_t o : {(size_t)0, (size_t)1, (size_t)47}) if (o < n) muts.push_back({name, fc, o, 3, 0, "whole-file"});
           for (size_t o = n - 48; o < n; o++) add_pos(name, fc, o, "footer", n);
           for (size_t o = td.index_off; o < td.index_off + td.index_len; o++) add_pos(name, fc, o, "index", n);
           for (size_t o = td.meta_off; o < td.meta_off + td.meta_len; o++) add_pos(name, fc, o, "metaindex", n);
